@@ -15,9 +15,9 @@ THEOREMS = ["Mistune.needs_sound", "Mistune.no_match_without_needed", "Mistune.s
             "Mistune.plugins_have_triggers", "Mistune.m_sound",
             # lifted to the CONCRETE inline parser model: every source the inline parser is ever run on while parsing src (children of emphasis / links / plugin spans, the
             # speculative calls of precedence_scan) contains only characters of src, so adding one inline rule that needs an absent character changes neither tokens nor errors
-            # (any env, any ch-free source; side conditions decidable on regenerated data; configurations without abbr); instance: core vs only-strikethrough on '~'-free text
+            # (any env, any ch-free source; side conditions decidable on regenerated data; every configuration, abbr included); instances: core vs each only-<inline plugin> configuration
             "Mistune.Model.Inl.recAt_agree", "Mistune.Model.Inl.inlineParse_irrelevant_rule", "Mistune.Model.Inl.strikethrough_irrelevant", "Mistune.Model.Inl.mark_irrelevant", "Mistune.Model.Inl.insert_irrelevant",
-            "Mistune.Model.Inl.superscript_irrelevant", "Mistune.Model.Inl.subscript_irrelevant", "Mistune.Model.Inl.url_link_irrelevant", "Mistune.Model.Inl.inline_spoiler_irrelevant"]
+            "Mistune.Model.Inl.superscript_irrelevant", "Mistune.Model.Inl.subscript_irrelevant", "Mistune.Model.Inl.url_link_irrelevant", "Mistune.Model.Inl.inline_spoiler_irrelevant", "Mistune.Model.Inl.ruby_irrelevant", "Mistune.Model.Inl.parseMethod_x"]
 
 # triggers of behaviour that is not a scanner rule (handler replacements / hooks); rule triggers are computed in Lean
 EXTRA_TRIGGERS = {"task_lists": "[", "spoiler": "!", "abbr": "*", "speedup": "", "fenced": "{", "rst": "."}
